@@ -20,7 +20,6 @@ pub struct CoreError { pub _p: () }
 #[derive(Debug)]
 pub struct SyncError { pub _p: () }
 /// sos_backend::StorageError (crates/backend/src/error.rs): the variant the code constructs
-#[derive(Debug)]
 pub enum StorageError { FolderNotFound(VaultId) }
 /// sos_server_storage::Error (crates/storage/server/src/error.rs) — opaque; the `From`
 /// impls are the `#[from]` variants its `?` sites use
@@ -107,9 +106,9 @@ impl TrackedChanges {
     pub fn add_tracked_folder_changes(&mut self, folder_id: &VaultId, changes: TrackedSet) { unimplemented!() }
 }
 /// sos_sync::MergeOutcome (crates/sync/src/types.rs): `changes` is the counter C05 talks
-/// about; `tracked` as above (`external_files` is not touched by the code under contract)
+/// about; `tracked` as above (R15: spelled `tracked_` — `tracked` is a Verus keyword) (`external_files` is not touched by the code under contract)
 #[derive(Default)]
-pub struct MergeOutcome { pub changes: u64, pub tracked: TrackedChanges }
+pub struct MergeOutcome { pub changes: u64, pub tracked_: TrackedChanges }
 
 /// std::collections::HashSet<VaultId> as built by `merge_account` (the set of deleted
 /// folders): only `new` and `insert` are used
